@@ -26,6 +26,15 @@ pub fn defpath(tcx: TyCtxt<'_>, did: DefId) -> String {
     tcx.def_path_str(did)
 }
 
+/// unique, order-stable def path (`::ast::field_expr::{impl#12}::f::{impl#3}::compare`)
+pub fn dp(tcx: TyCtxt<'_>, did: DefId) -> String {
+    if did.is_local() {
+        tcx.def_path(did).to_string_no_crate_verbose()
+    } else {
+        format!("{}{}", tcx.crate_name(did.krate), tcx.def_path(did).to_string_no_crate_verbose())
+    }
+}
+
 pub fn ty_str<'tcx>(ty: Ty<'tcx>) -> String {
     format!("{}", ty)
 }
